@@ -73,7 +73,8 @@ def opcode_table(an: Analysis, f: FunctionInfo, container: ast.AST, V) -> Option
     for k in ref:
         if k.startswith("has"):
             disenv[k] = list(ref[k])
-    env: Dict[str, object] = {"dis": disenv, "opcode": disenv, "sys.version_info": V, "frozenset": frozenset, "set": set}
+    env: Dict[str, object] = {"dis": disenv, "opcode": disenv, "sys.version_info": V, "frozenset": frozenset, "set": set, "range": range,
+                              "HAVE_ARGUMENT": ref["HAVE_ARGUMENT"], "EXTENDED_ARG": ref["EXTENDED_ARG"], "opmap": disenv["opmap"], "opname": disenv["opname"]}
     for k, v in disenv.items():
         env["dis." + k] = v
         env["opcode." + k] = v
@@ -164,6 +165,7 @@ def run(an: Analysis, rep):
         for pr in _table_problems.get((f.qual, V), []):
             rep.add("R02.2", f"{f.qual}::hand-written opcode table", False, loc(f.module, f.node),
                     pr + ": operands of the missing opcodes are shown as raw integers and the targets of missing jump opcodes start no block", config=cfg)
+        rep.run(r022_noarg, an, rep, V, f)
         seen_cats = set()
         for cat, ifn in arms:
             seen_cats.add(cat)
@@ -246,7 +248,44 @@ def jump_rules(an: Analysis, rep, with_cellfree=True):
         rep.run(r023, an, rep, V, f, arms, env, ref)
         if with_cellfree:
             rep.run(r024, an, rep, V, f, arms, env)
+        rep.run(r022_noarg, an, rep, V, f)
     rep.run(r025, an, rep)
+
+
+def r022_noarg(an, rep, V, f):
+    """The 'no argument' class is exactly the opcodes below HAVE_ARGUMENT of the interpreter: for every other opcode the operand byte means
+    something (normalize resets the operand of a NoArg to 0)."""
+    ref = c11.reference(V)
+    op = f.params[0]
+    arm = None
+    for n in ast.walk(f.node):
+        if isinstance(n, ast.If) and any(isinstance(r.value, ast.Call) and isinstance(r.value.func, ast.Name) and r.value.func.id == "NoArg" for r in returns_of(n.body)):
+            arm = n
+    if arm is None:
+        raise AnalysisError(f"{f.qual}: arm returning NoArg(...) not found")
+    test = arm.test
+    env = module_consts(an, f.module.name, V)
+    env.update({"HAVE_ARGUMENT": ref["HAVE_ARGUMENT"], "dis.HAVE_ARGUMENT": ref["HAVE_ARGUMENT"], "opcode.HAVE_ARGUMENT": ref["HAVE_ARGUMENT"]})
+    for nm in {x.id for x in ast.walk(test) if isinstance(x, ast.Name)} - {op}:
+        if nm not in env:
+            tab = opcode_table(an, f, ast.Name(nm, ast.Load()), V)
+            if tab is not None:
+                env[nm] = frozenset(tab)
+    opname = {v: k for k, v in ref["opmap"].items()}
+    wrong = []
+    try:
+        for o in sorted(opname):
+            e = dict(env)
+            e[op] = o
+            got = bool(feval(test, e))
+            if got != (o < ref["HAVE_ARGUMENT"]):
+                wrong.append(opname[o])
+    except Exception as ex:
+        raise AnalysisError(f"{f.qual}: the test of the NoArg arm `{norm_src(test)}` is not evaluable under {vname(V)}: {ex}")
+    rep.add("R02.2", f"{f.qual}::NoArg exactly for opcodes below HAVE_ARGUMENT", not wrong, loc(f.module, arm),
+            f"`{norm_src(test)}` holds for exactly the {sum(1 for o in opname if o < ref['HAVE_ARGUMENT'])} opcodes below HAVE_ARGUMENT" if not wrong else
+            f"under {vname(V)} `{norm_src(test)}` classifies {wrong[:4]} differently from `opcode < HAVE_ARGUMENT`: the operand of an instruction that uses it is treated as unused "
+            f"(normalize resets it to 0, e.g. RERAISE 1 becomes RERAISE 0) or an unused operand byte is kept as meaningful", config=vname(V))
 
 
 def _jump_arg_exprs(f, arms):
